@@ -516,7 +516,8 @@ func (c *Ctx) SessionLifecycle(prop string) {
 		bad := false
 		for _, u := range uses {
 			target := u
-			x, path := an.Cut(an.CutQuery{From: an.After(lc), Target: func(i ssa.Instruction) bool { return i == target },
+			// from the entry: a success return placed before the lookup is reached without its success edge as well
+			x, path := an.Cut(an.CutQuery{From: an.Entry(F), Target: func(i ssa.Instruction) bool { return i == target },
 				AcceptEdge: func(b *ssa.BasicBlock, i int, at *an.Atom) bool { return p.lookupSuccessAtom(at, lc) }})
 			if x != nil {
 				bad = true
